@@ -39,6 +39,7 @@ type shapeConfig struct {
 	override paramOverride
 	floor    int
 	onlyGeneric bool // only entries that take the orb.Geometry interface
+	hostile     bool // decoder entries: judge allocation sizes against the input length
 	// extra entries that are not exported (by ShortKey)
 	extra []string
 	post  func(c *Ctx, run *shapeRun, hyps []*GeomHyp, labels []string)
@@ -257,6 +258,15 @@ func ruleShapeFaults(cfg shapeConfig) ruleFunc {
 			go func() {
 				defer wg.Done()
 				it := NewInterp(p, lim)
+				if cfg.hostile {
+					it.allocLimit = func(n int64, in ssa.Instruction, s *State) string {
+						limit := int64(4*it.inputLen) + 1<<16
+						if n > limit {
+							return fmt.Sprintf("allocation of up to %d elements is reachable for an input of %d bytes (bound: 4 x input + 65536): the size is a decoded count that no guard ties to the input length", n, it.inputLen)
+						}
+						return ""
+					}
+				}
 				for j := range jobs {
 					func() {
 						res := results[j.ei]
